@@ -802,6 +802,1015 @@ theorem xAny_mono (c : Ctx) (n m : Nat) (h : n ≤ m) (s : St) (node : Option No
       xAny c m s node vs f l a b i u = xAny c n s node vs f l a b i u :=
   fun ho => ((sim_all c n m h).2.2 s node vs f l a b i u ho).2
 
+/-! # Part 2 — fuel adequacy: a computable amount of fuel with which no run sets `oof`
+
+One-sided invariant `OK D s` (no `oof`, current item within the depth bound `D`), preserved by every
+function whose node needs at most the available fuel (`need D node`, 4 per nesting level of the path
+tree plus `D` per `.**` step; 2 more for the auto-unwrapping of an array target).  Structure as in
+`Good.lean`; `adequate_all` by induction on the fuel. -/
+
+/-! ## measures -/
+
+mutual
+  /-- nesting depth of an item (scalars 0) -/
+  def depth : Item → Nat
+    | .arr xs => 1 + depthL xs
+    | .obj kvs => 1 + depthM kvs
+    | _ => 0
+  def depthL : List Item → Nat
+    | [] => 0
+    | x :: xs => max (depth x) (depthL xs)
+  def depthM : List (List Char × Item) → Nat
+    | [] => 0
+    | (_, v) :: rest => max (depth v) (depthM rest)
+end
+
+mutual
+  /-- fuel `xItem` needs for a node (not counting the auto-unwrapping of an array target, which costs 2
+      more), given that every item has depth at most `D`: 4 per nesting level of the path tree
+      (`next` pointers and operands alike), plus `D` for a `.**` step -/
+  def need (D : Nat) : Node → Nat
+    | .const _ nx | .method _ nx | .str _ nx | .var _ nx | .key _ nx | .numeric _ nx | .integer _ nx =>
+      4 + needO D nx
+    | .any _ _ nx => D + 4 + needO D nx
+    | .binary _ l r nx => 4 + max (needO D l) (max (needO D r) (needO D nx))
+    | .unary _ x nx => 4 + max (needO D x) (needO D nx)
+    | .regex x _ _ nx => 4 + max (need D x) (needO D nx)
+    | .arrayIndex subs nx => 4 + max (needL D subs) (needO D nx)
+  def needO (D : Nat) : Option Node → Nat
+    | none => 0
+    | some n => need D n
+  def needL (D : Nat) : List Node → Nat
+    | [] => 0
+    | n :: ns => max (need D n) (needL D ns)
+end
+
+theorem need_pos (D : Nat) (n : Node) : 4 ≤ need D n := by
+  cases n <;> simp only [need] <;> omega
+
+theorem needL_mem (D : Nat) {n : Node} {ns : List Node} (h : n ∈ ns) : need D n ≤ needL D ns := by
+  induction ns with
+  | nil => simp at h
+  | cons m ms ih =>
+    simp only [needL]
+    rcases List.mem_cons.mp h with rfl | h'
+    · omega
+    · have := ih h'; omega
+
+/-- extra fuel for the auto-unwrapping of an array target -/
+def bonus (u : Bool) : Nat := if u then 2 else 0
+@[simp] theorem bonus_true : bonus true = 2 := rfl
+@[simp] theorem bonus_false : bonus false = 0 := rfl
+theorem bonus_le (u : Bool) : bonus u ≤ 2 := by cases u <;> simp
+
+/-- descent allowance of `executeAnyItem` for a list of elements -/
+def dl : List Item → Nat
+  | [] => 0
+  | v :: vs => 1 + depthL (v :: vs)
+
+theorem dl_le (vs : List Item) : dl vs ≤ 1 + depthL vs := by
+  cases vs <;> simp [dl]
+
+theorem depthL_mem {v : Item} {xs : List Item} (h : v ∈ xs) : depth v ≤ depthL xs := by
+  induction xs with
+  | nil => simp at h
+  | cons x xs ih =>
+    simp only [depthL]
+    rcases List.mem_cons.mp h with rfl | h'
+    · omega
+    · have := ih h'; omega
+
+theorem depthM_mem {kv : List Char × Item} {kvs : List (List Char × Item)} (h : kv ∈ kvs) :
+    depth kv.2 ≤ depthM kvs := by
+  induction kvs with
+  | nil => simp at h
+  | cons x xs ih =>
+    obtain ⟨k, v⟩ := x
+    simp only [depthM]
+    rcases List.mem_cons.mp h with rfl | h'
+    · simp; omega
+    · have := ih h'; omega
+
+theorem depthL_members (kvs : List (List Char × Item)) : depthL (members kvs) = depthM kvs := by
+  induction kvs with
+  | nil => simp [members, depthL, depthM]
+  | cons x xs ih =>
+    obtain ⟨k, v⟩ := x
+    simp only [members, List.map_cons, depthL, depthM] at *
+    rw [ih]
+
+theorem depth_lookup {key : List Char} {kvs : List (List Char × Item)} {val : Item}
+    (h : Item.lookup key kvs = some val) : depth val ≤ depthM kvs := by
+  induction kvs with
+  | nil => simp [Item.lookup] at h
+  | cons x xs ih =>
+    obtain ⟨k, v⟩ := x
+    simp only [Item.lookup] at h
+    simp only [depthM]
+    split at h
+    · simp at h; subst h; omega
+    · have := ih h; omega
+
+theorem dl_collection {v : Item} {vs : List Item} (h : v ∈ vs) : dl ((collection v).getD []) + 1 ≤ dl vs := by
+  have hv := depthL_mem h
+  have hvs : dl vs = 1 + depthL vs := by cases vs <;> simp_all [dl]
+  cases v with
+  | arr xs => have := dl_le xs; simp only [collection, Option.getD_some, depth] at *; omega
+  | obj kvs =>
+    have := dl_le (members kvs); rw [depthL_members] at this
+    simp only [collection, Option.getD_some, depth] at *; omega
+  | _ => rw [hvs]; simp only [collection, Option.getD_none, dl]; omega
+
+theorem mem_sliceRange {v : Item} {xs : List Item} {a b : Int} (h : v ∈ sliceRange xs a b) : v ∈ xs := by
+  unfold sliceRange at h
+  split at h
+  · simp at h
+  · exact List.mem_of_mem_drop (List.mem_of_mem_take h)
+
+theorem depthL_arrayOf {c : Ctx} {v : Item} {xs : List Item} (h : arrayOf c v = some xs) :
+    depthL xs ≤ depth v := by
+  unfold arrayOf at h
+  split at h
+  · simp at h; subst h; simp [depth]
+  · split at h
+    · simp at h; subst h; simp [depthL]
+    · simp at h
+
+theorem depth_kvObj (id : Int) (kv : List Char × Item) : depth (kvObj id kv) = 1 + depth kv.2 := by
+  simp [kvObj, depth, depthM]
+
+theorem depth_predItem (p : Pred) : depth (predItem p) = 0 := by cases p <;> simp [predItem, depth]
+
+/-! ### the values computed by the item methods are scalars -/
+
+theorem depth_castJSONNumber {t : List Char} {cb : Num.UCallback} {val : Item}
+    (h : Num.castJSONNumber t cb = some val) : depth val = 0 := by
+  unfold Num.castJSONNumber at h
+  split at h <;> simp at h <;> subst h <;> simp [depth]
+
+theorem depth_liftI {r : Except Num.MathErr Int} {val : Item} (h : Num.liftI r = .ok val) : depth val = 0 := by
+  cases r <;> simp [Num.liftI, Except.map] at h; subst h; simp [depth]
+
+theorem depth_liftF {r : Except Num.MathErr F64} {val : Item} (h : Num.liftF r = .ok val) : depth val = 0 := by
+  cases r <;> simp [Num.liftF, Except.map] at h; subst h; simp [depth]
+
+theorem depth_mathOpI {a : Int} {r : Item} {op : BinOp} {val : Item} (h : Num.mathOpI a r op = .ok val) :
+    depth val = 0 := by
+  unfold Num.mathOpI at h
+  repeat' split at h
+  all_goals first | exact depth_liftI h | exact depth_liftF h | simp at h
+
+theorem depth_mathOpF {a : F64} {r : Item} {op : BinOp} {val : Item} (h : Num.mathOpF a r op = .ok val) :
+    depth val = 0 := by
+  unfold Num.mathOpF at h
+  repeat' split at h
+  all_goals first | exact depth_liftI h | exact depth_liftF h | simp at h
+
+theorem depth_mathOp {l r : Item} {op : BinOp} {val : Item} (h : Num.mathOp l r op = .ok val) : depth val = 0 := by
+  unfold Num.mathOp at h
+  repeat' split at h
+  all_goals first | exact depth_mathOpI h | exact depth_mathOpF h | simp at h
+
+/-- a conversion that only produces scalars -/
+def ScalarConv (conv : Item → Conv) : Prop := ∀ v out, conv v = .val out → depth out = 0
+
+theorem int32Check_scalar {i : Int} {out : Item} (h : int32Check i = .val out) : depth out = 0 := by
+  unfold int32Check at h; split at h <;> simp at h; subst h; simp [depth]
+
+theorem convDouble_scalar : ScalarConv convDouble := by
+  intro v out h
+  unfold convDouble at h
+  repeat' (first | split at h | dsimp only at h)
+  all_goals first | (simp at h; subst h; simp [depth]) | simp at h
+
+theorem convInteger_scalar : ScalarConv convInteger := by
+  intro v out h
+  unfold convInteger at h
+  repeat' split at h
+  all_goals first | exact int32Check_scalar h | simp at h
+
+theorem convBigInt_scalar : ScalarConv convBigInt := by
+  intro v out h
+  unfold convBigInt at h
+  repeat' split at h
+  all_goals first | (simp at h; subst h; simp [depth]) | simp at h
+
+theorem convString_scalar : ScalarConv convString := by
+  intro v out h
+  unfold convString at h
+  repeat' split at h
+  all_goals first | (simp at h; subst h; simp [depth]) | simp at h
+
+theorem convBoolean_scalar : ScalarConv convBoolean := by
+  intro v out h
+  unfold convBoolean at h
+  repeat' split at h
+  all_goals first | (simp at h; subst h; simp [depth]) | simp at h
+
+theorem convNumericItem_scalar (cb : Num.UCallback) : ScalarConv (convNumericItem cb) := by
+  intro v out h
+  unfold convNumericItem at h
+  repeat' split at h
+  all_goals first | (simp at h; subst h; first | simp [depth] | exact depth_castJSONNumber (by assumption)) | simp at h
+
+theorem convNumber_scalar (dec : Option (Option Node × Option Node)) : ScalarConv (convNumber dec) := by
+  intro v out h
+  unfold convNumber at h
+  dsimp only at h
+  repeat' split at h
+  all_goals first | (simp at h; subst h; simp [depth]) | simp at h
+
+
+/-! ## the invariant -/
+
+/-- a state in which fuel has not run out and whose current item is within the depth bound -/
+def OK (D : Nat) (s : St) : Prop := s.oof = false ∧ depth s.current ≤ D
+
+/-- the state an accumulator with early return `ret` and loop state `st` stands for -/
+def retSt (ret : Option Res) (st : St) : St :=
+  match ret with
+  | some r => r.st
+  | none => st
+
+@[simp] theorem retSt_some (r : Res) (st : St) : retSt (some r) st = r.st := rfl
+@[simp] theorem retSt_none (st : St) : retSt none st = st := rfl
+
+/-- the items the context can inject are within the depth bound -/
+structure CtxOK (D : Nat) (c : Ctx) : Prop where
+  root : depth c.root ≤ D
+  vars : ∀ name val, c.vars.bind (Item.lookup name) = some val → depth val ≤ D
+
+/-- `item` (the dispatcher with fuel `k`) does not run out on nodes that need at most `k` -/
+def HI (D : Nat) (item : ItemK) (k : Nat) : Prop :=
+  ∀ s n v f u, need D n + bonus u ≤ k → depth v ≤ D → OK D s → OK D (item s n v f u).st
+
+/-- `xBool` is entered from `xItem` with the same node: one unit less -/
+def HB (D : Nat) (bool : BoolK) (k : Nat) : Prop :=
+  ∀ s n v b, need D n ≤ k + 1 → depth v ≤ D → OK D s → OK D (bool s n v b).st
+
+/-- `e` is the descent allowance: needed only if the loop can descend (`level < last`) -/
+def HA (D : Nat) (any : AnyK) (k : Nat) : Prop :=
+  ∀ s node vs f level first last ign un (e : Nat), needO D node + bonus un + 1 + e ≤ k →
+    (level < last → dl vs ≤ e) → depthL vs ≤ D → OK D s → OK D (any s node vs f level first last ign un).st
+
+theorem foldl_inv_mem {α β : Type} (P : β → Prop) (step : β → α → β) (xs : List α) (b : β)
+    (h0 : P b) (hstep : ∀ b x, x ∈ xs → P b → P (step b x)) : P (xs.foldl step b) := by
+  induction xs generalizing b with
+  | nil => exact h0
+  | cons x xs ih =>
+    exact ih _ (hstep _ _ (List.mem_cons_self ..) h0) (fun b y hy hb => hstep b y (List.mem_cons_of_mem _ hy) hb)
+
+/-- closes the goals where the result state is a known good state up to context fields -/
+macro "ok_leaf" : tactic =>
+  `(tactic| first | assumption | (simp_all [OK]; done) | ((repeat' split) <;> (simp_all [OK]; done)))
+
+theorem predicateTail_current (c : Ctx) (s : St) (cb : Item → Item → CbOut) (ls rs : List Item) :
+    (predicateTail c s cb ls rs).st.current = s.current := by
+  unfold predicateTail
+  dsimp only
+  repeat' split
+  all_goals rfl
+
+theorem predicateTail_ok {D : Nat} (c : Ctx) {s : St} (cb : Item → Item → CbOut) (ls rs : List Item)
+    (hs : OK D s) : OK D (predicateTail c s cb ls rs).st := by
+  simp only [OK, predicateTail_oof, predicateTail_current]; exact hs
+
+/-! ## one lemma per function -/
+
+section
+variable {D : Nat} (c : Ctx) {item : ItemK} {bool : BoolK} {any : AnyK} {k : Nat}
+
+theorem executeItem_ok (hI : HI D item k) {s : St} {n : Node} {v : Item} (f : Found)
+    (hn : need D n + 2 ≤ k) (hv : depth v ≤ D) (hs : OK D s) : OK D (executeItem c item s n v f).st :=
+  hI _ _ _ _ _ (by have := bonus_le c.lax; omega) hv hs
+
+theorem executeNextItem_ok (hI : HI D item k) {s : St} {nx : Option Node} {v : Item} (f : Found)
+    (hn : needO D nx + 2 ≤ k) (hv : nx.isSome → depth v ≤ D) (hs : OK D s) :
+    OK D (executeNextItem c item s nx v f).st := by
+  unfold executeNextItem
+  split
+  · exact executeItem_ok c hI f (by simpa [needO] using hn) (hv rfl) hs
+  · ok_leaf
+
+theorem withBaseObject_ok {s : St} (a : Nat) (i : Int) (k' : St → Res)
+    (hk : ∀ s', OK D s' → OK D (k' s').st) (hs : OK D s) : OK D (withBaseObject s a i k').st := by
+  unfold withBaseObject
+  have := hk { s with baseAddr := a, baseId := i } (by simpa [OK] using hs)
+  ok_leaf
+
+theorem execLiteral_ok (hI : HI D item k) {s : St} {nx : Option Node} {v : Item} (f : Found)
+    (hn : needO D nx + 2 ≤ k) (hv : depth v ≤ D) (hs : OK D s) : OK D (execLiteral c item s nx v f).st := by
+  unfold execLiteral
+  split
+  · ok_leaf
+  · exact executeNextItem_ok c hI f hn (fun _ => hv) hs
+
+theorem execVariable_ok (hc : CtxOK D c) (hI : HI D item k) {s : St} (name : List Char) {nx : Option Node}
+    (f : Found) (hn : needO D nx + 2 ≤ k) (hs : OK D s) : OK D (execVariable c item s name nx f).st := by
+  unfold execVariable
+  split
+  · rename_i val hval
+    exact withBaseObject_ok _ _ _ (fun s' hs' => executeNextItem_ok c hI f hn (fun _ => hc.vars _ _ hval) hs') hs
+  · ok_leaf
+
+theorem unwrapTargetArray_ok (hA : HA D any k) {s : St} {n : Node} {xs : List Item} (f : Found)
+    (hn : need D n + 1 ≤ k) (hxs : depthL xs ≤ D) (hs : OK D s) : OK D (unwrapTargetArray any s n xs f).st :=
+  hA _ _ _ _ _ _ _ _ _ 0 (by simpa [needO] using hn) (by omega) hxs hs
+
+theorem depthL_of_arr {D : Nat} {xs : List Item} (h : depth (.arr xs) ≤ D) : depthL xs ≤ D := by
+  simp only [depth] at h; omega
+
+theorem depthL_of_obj {D : Nat} {kvs : List (List Char × Item)} (h : depth (.obj kvs) ≤ D) :
+    depthL (members kvs) ≤ D := by
+  rw [depthL_members]; simp only [depth] at h; omega
+
+theorem execKeyNode_ok (hI : HI D item k) (hA : HA D any k) {s : St} {n : Node} (key : List Char)
+    {nx : Option Node} {v : Item} (f : Found) {unwrap : Bool} (hnx : needO D nx + 2 ≤ k)
+    (hn : unwrap = true → need D n + 1 ≤ k) (hv : depth v ≤ D) (hs : OK D s) :
+    OK D (execKeyNode c item any s n key nx v f unwrap).st := by
+  unfold execKeyNode
+  split
+  · split
+    · rename_i val hval
+      refine executeNextItem_ok c hI f hnx (fun _ => ?_) hs
+      have := depth_lookup hval; simp only [depth] at hv; omega
+    · ok_leaf
+  · split
+    · rename_i hu
+      exact hA _ _ _ _ _ _ _ _ _ 0 (by have := hn hu; simpa [needO] using this) (by omega) (depthL_of_arr hv) hs
+    · ok_leaf
+  · ok_leaf
+
+theorem execAnyKey_ok (hA : HA D any k) {s : St} {n : Node} {nx : Option Node} {v : Item} (f : Found)
+    {unwrap : Bool} (hnx : needO D nx + 3 ≤ k) (hn : unwrap = true → need D n + 1 ≤ k) (hv : depth v ≤ D)
+    (hs : OK D s) : OK D (execAnyKey c any s n nx v f unwrap).st := by
+  unfold execAnyKey
+  split
+  · exact hA _ _ _ _ _ _ _ _ _ 0 (by have := bonus_le c.lax; omega) (by omega) (depthL_of_obj hv) hs
+  · split
+    · rename_i hu
+      exact unwrapTargetArray_ok hA f (hn hu) (depthL_of_arr hv) hs
+    · ok_leaf
+  · ok_leaf
+
+theorem execAnyArray_ok (hI : HI D item k) (hA : HA D any k) {s : St} {nx : Option Node} {v : Item}
+    (f : Found) (hnx : needO D nx + 3 ≤ k) (hv : depth v ≤ D) (hs : OK D s) :
+    OK D (execAnyArray c item any s nx v f).st := by
+  unfold execAnyArray
+  split
+  · exact hA _ _ _ _ _ _ _ _ _ 0 (by have := bonus_le c.lax; omega) (by omega) (depthL_of_arr hv) hs
+  · split
+    · exact executeNextItem_ok c hI f (by omega) (fun _ => hv) hs
+    · ok_leaf
+
+theorem execLastConst_ok (hI : HI D item k) {s : St} {nx : Option Node} (f : Found)
+    (hnx : needO D nx + 2 ≤ k) (hs : OK D s) : OK D (execLastConst c item s nx f).st := by
+  unfold execLastConst
+  split
+  · ok_leaf
+  · split
+    · ok_leaf
+    · exact executeNextItem_ok c hI f hnx (fun _ => by simp [depth]) hs
+
+theorem execConstNode_ok (hc : CtxOK D c) (hI : HI D item k) (hA : HA D any k) {s : St} {n : Node}
+    (kc : Const) {nx : Option Node} {v : Item} (f : Found) {unwrap : Bool} (hnx : needO D nx + 3 ≤ k)
+    (hn : unwrap = true → need D n + 1 ≤ k) (hv : depth v ≤ D) (hs : OK D s) :
+    OK D (execConstNode c item any s n kc nx v f unwrap).st := by
+  unfold execConstNode
+  cases kc <;> simp only
+  · exact withBaseObject_ok _ _ _ (fun s' hs' => executeNextItem_ok c hI f (by omega) (fun _ => hc.root) hs') hs
+  · exact executeNextItem_ok c hI f (by omega) (fun _ => hs.2) hs
+  · exact execLastConst_ok c hI f (by omega) hs
+  · exact execAnyArray_ok c hI hA f hnx hv hs
+  · exact execAnyKey_ok c hA f hnx hn hv hs
+  · exact execLiteral_ok c hI f (by omega) (by simp [depth]) hs
+  · exact execLiteral_ok c hI f (by omega) (by simp [depth]) hs
+  · exact execLiteral_ok c hI f (by omega) (by simp [depth]) hs
+
+/-! ### operand evaluation -/
+
+theorem optUnwrapResult_ok (hI : HI D item k) {s : St} {n : Node} {v : Item} (unwrap : Bool) (l : List Item)
+    (hn : need D n + 2 ≤ k) (hv : depth v ≤ D) (hs : OK D s) :
+    OK D (optUnwrapResult c item s n v unwrap l).st := by
+  unfold optUnwrapResult
+  have h1 := executeItem_ok c hI (some []) hn hv hs
+  split
+  · dsimp only
+    ok_leaf
+  · exact executeItem_ok c hI _ hn hv hs
+
+theorem optUnwrapResultSilent_ok (hI : HI D item k) {s : St} {n : Node} {v : Item} (unwrap : Bool) (f : Found)
+    (hn : need D n + 2 ≤ k) (hv : depth v ≤ D) (hs : OK D s) :
+    OK D (optUnwrapResultSilent c item s n v unwrap f).st := by
+  unfold optUnwrapResultSilent
+  have hs' : OK D { s with verbose := false } := by simpa [OK] using hs
+  cases f with
+  | some l =>
+    have := optUnwrapResult_ok c hI unwrap l hn hv hs'
+    dsimp only
+    ok_leaf
+  | none =>
+    have := executeItem_ok c hI none hn hv hs'
+    dsimp only
+    ok_leaf
+
+/-! ### predicates -/
+
+theorem executePredicate_ok (hI : HI D item k) {s : St} {left : Node} {right : Option Node} {v : Item}
+    (unwrapRight : Bool) (cb : Item → Item → CbOut) (hl : need D left + 2 ≤ k) (hr : needO D right + 2 ≤ k)
+    (hv : depth v ≤ D) (hs : OK D s) : OK D (executePredicate c item s left right v unwrapRight cb).st := by
+  unfold executePredicate
+  have h1 := optUnwrapResultSilent_ok c hI true (some []) hl hv hs
+  dsimp only
+  split
+  · ok_leaf
+  · split
+    · rename_i rn
+      have h2 := optUnwrapResultSilent_ok c hI unwrapRight (some []) (n := rn) (by simpa [needO] using hr) hv h1
+      split
+      · ok_leaf
+      · exact predicateTail_ok c cb _ _ h2
+    · exact predicateTail_ok c cb _ _ h1
+
+theorem executeBinaryBoolItem_ok (hI : HI D item k) (hB : HB D bool k) {s : St} (op : BinOp)
+    {l r : Option Node} {v : Item} (hl : needO D l + 2 ≤ k) (hr : needO D r + 2 ≤ k) (hv : depth v ≤ D)
+    (hs : OK D s) : OK D (executeBinaryBoolItem c item bool s op l r v).st := by
+  unfold executeBinaryBoolItem
+  split
+  · ok_leaf
+  · rename_i ln
+    have hl' : need D ln + 2 ≤ k := by simpa [needO] using hl
+    split
+    · split
+      · ok_leaf
+      · rename_i rn
+        have hr' : need D rn + 2 ≤ k := by simpa [needO] using hr
+        have ha := hB s ln v false (by omega) hv hs
+        have hb := hB (bool s ln v false).st rn v false (by omega) hv ha
+        dsimp only
+        ok_leaf
+    · split
+      · ok_leaf
+      · rename_i rn
+        have hr' : need D rn + 2 ≤ k := by simpa [needO] using hr
+        have ha := hB s ln v false (by omega) hv hs
+        have hb := hB (bool s ln v false).st rn v false (by omega) hv ha
+        dsimp only
+        ok_leaf
+    · exact executePredicate_ok c hI _ _ hl' hr hv hs
+    · split
+      · exact executePredicate_ok c hI _ _ hl' hr hv hs
+      · ok_leaf
+
+theorem executeUnaryBoolItem_ok (hI : HI D item k) (hB : HB D bool k) {s : St} (op : UnOp)
+    {x : Option Node} {v : Item} (hx : needO D x + 2 ≤ k) (hv : depth v ≤ D) (hs : OK D s) :
+    OK D (executeUnaryBoolItem c item bool s op x v).st := by
+  unfold executeUnaryBoolItem
+  split
+  · rename_i xn
+    have ha := hB s xn v false (by simp [needO] at hx; omega) hv hs
+    dsimp only
+    ok_leaf
+  · rename_i xn
+    have ha := hB s xn v false (by simp [needO] at hx; omega) hv hs
+    dsimp only
+    ok_leaf
+  · rename_i xn
+    have hx' : need D xn + 2 ≤ k := by simpa [needO] using hx
+    split
+    · have := optUnwrapResultSilent_ok c hI false (some []) hx' hv hs
+      dsimp only
+      ok_leaf
+    · have := optUnwrapResultSilent_ok c hI false none hx' hv hs
+      dsimp only
+      ok_leaf
+  · ok_leaf
+  · ok_leaf
+  · ok_leaf
+  · ok_leaf
+
+theorem executeBoolItem_ok (hI : HI D item k) (hB : HB D bool k) {s : St} {n : Node} {v : Item} (chn : Bool)
+    (hn : need D n ≤ k + 2) (hv : depth v ≤ D) (hs : OK D s) : OK D (executeBoolItem c item bool s n v chn).st := by
+  unfold executeBoolItem
+  split
+  · ok_leaf
+  · split
+    · simp only [need] at hn
+      exact executeBinaryBoolItem_ok c hI hB _ (by omega) (by omega) hv hs
+    · simp only [need] at hn
+      exact executeUnaryBoolItem_ok c hI hB _ (by omega) hv hs
+    · rename_i _ x _ _ _ _
+      have := need_pos D x
+      simp only [need] at hn
+      exact executePredicate_ok c hI _ _ (by omega) (by simp only [needO]; omega) hv hs
+    · ok_leaf
+
+theorem appendBoolResult_ok (hI : HI D item k) {nx : Option Node} (f : Found) {p : PRes}
+    (hnx : needO D nx + 2 ≤ k) (hp : OK D p.st) : OK D (appendBoolResult c item nx f p).st := by
+  unfold appendBoolResult
+  split
+  · ok_leaf
+  · split
+    · ok_leaf
+    · exact executeNextItem_ok c hI f hnx (fun _ => by rw [depth_predItem]; omega) hp
+
+theorem executeNestedBoolItem_ok (hB : HB D bool k) {s : St} {n : Node} {v : Item} (hn : need D n ≤ k + 1)
+    (hv : depth v ≤ D) (hs : OK D s) : OK D (executeNestedBoolItem bool s n v).st := by
+  unfold executeNestedBoolItem
+  have := hB { s with current := v } n v false hn hv ⟨hs.1, hv⟩
+  dsimp only
+  ok_leaf
+
+/-! ### arithmetic -/
+
+theorem unaryStep_inv (hI : HI D item k) (cb : Num.UCallback) {nx : Option Node} (hnx : needO D nx + 2 ≤ k)
+    (a : UAcc) (v : Item) (h : OK D (retSt a.ret a.st)) :
+    OK D (retSt (unaryStep c item cb nx a v).ret (unaryStep c item cb nx a v).st) := by
+  unfold unaryStep
+  split
+  · exact h
+  · rename_i hnone
+    simp only [hnone, retSt_none] at h
+    have go : ∀ val : Item, (nx.isSome → depth val ≤ D) → OK D (executeNextItem c item a.st nx val a.found).st :=
+      fun val hval => executeNextItem_ok c hI a.found hnx hval h
+    have goI : ∀ i : Int, OK D (executeNextItem c item a.st nx (.int i) a.found).st :=
+      fun i => go _ (fun _ => by simp [depth])
+    have goF : ∀ x : F64, OK D (executeNextItem c item a.st nx (.flt x) a.found).st :=
+      fun x => go _ (fun _ => by simp [depth])
+    dsimp only
+    split
+    · split
+      · ok_leaf
+      · ok_leaf
+    · split
+      · ok_leaf
+      · ok_leaf
+    · split
+      · ok_leaf
+      · split
+        · rename_i val hval
+          have := go val (fun _ => by rw [depth_castJSONNumber hval]; omega); ok_leaf
+        · ok_leaf
+    · split
+      · rename_i other _ _ _ hprobe
+        have := go other (fun hsome => by cases nx <;> simp_all); ok_leaf
+      · ok_leaf
+
+theorem execUnaryMathExpr_ok (hI : HI D item k) {s : St} {operand nx : Option Node} {v : Item}
+    (cb : Num.UCallback) (f : Found) (hx : needO D operand + 2 ≤ k) (hnx : needO D nx + 2 ≤ k)
+    (hv : depth v ≤ D) (hs : OK D s) : OK D (execUnaryMathExpr c item s operand nx v cb f).st := by
+  unfold execUnaryMathExpr
+  split
+  · ok_leaf
+  · rename_i x
+    have hr := optUnwrapResult_ok c hI true [] (n := x) (by simpa [needO] using hx) hv hs
+    generalize optUnwrapResult c item s x v true [] = r at hr
+    try dsimp only
+    split
+    · ok_leaf
+    · have hinv := foldl_inv_mem (fun a : UAcc => OK D (retSt a.ret a.st)) (unaryStep c item cb nx)
+        (r.found.getD []) ⟨r.st, f, .notFound, none⟩ (by simpa using hr)
+        (fun a v _ h => unaryStep_inv c hI cb hnx a v h)
+      try dsimp only at hinv
+      split <;> ok_leaf
+
+theorem execBinaryMathExpr_ok (hI : HI D item k) {s : St} (op : BinOp) {l r nx : Option Node} {v : Item}
+    (f : Found) (hl : needO D l + 2 ≤ k) (hr : needO D r + 2 ≤ k) (hnx : needO D nx + 2 ≤ k)
+    (hv : depth v ≤ D) (hs : OK D s) : OK D (execBinaryMathExpr c item s op l r nx v f).st := by
+  unfold execBinaryMathExpr
+  split
+  · rename_i ln rn
+    have h1 := optUnwrapResult_ok c hI true [] (n := ln) (by simpa [needO] using hl) hv hs
+    generalize optUnwrapResult c item s ln v true [] = rl at h1
+    try dsimp only
+    split
+    · ok_leaf
+    · split
+      · have h2 := optUnwrapResult_ok c hI true [] (n := rn) (by simpa [needO] using hr) hv h1
+        generalize optUnwrapResult c item rl.st rn v true [] = rr at h2
+        split
+        · ok_leaf
+        · split
+          · split
+            · ok_leaf
+            · rename_i val hval
+              split
+              · ok_leaf
+              · split
+                · ok_leaf
+                · exact executeNextItem_ok c hI f hnx (fun _ => by rw [depth_mathOp hval]; omega) h2
+          · ok_leaf
+      · ok_leaf
+  · ok_leaf
+
+/-! ### item methods -/
+
+theorem execMethodSize_ok (hI : HI D item k) {s : St} {nx : Option Node} (v : Item) (f : Found)
+    (hnx : needO D nx + 2 ≤ k) (hs : OK D s) : OK D (execMethodSize c item s nx v f).st := by
+  unfold execMethodSize
+  split
+  · exact executeNextItem_ok c hI f hnx (fun _ => by simp [depth]) hs
+  · split
+    · ok_leaf
+    · exact executeNextItem_ok c hI f hnx (fun _ => by simp [depth]) hs
+
+theorem execConvMethod_ok (hI : HI D item k) (hA : HA D any k) {s : St} {n : Node} {nx : Option Node}
+    {v : Item} (f : Found) {unwrap : Bool} {conv : Item → Conv} (hconv : ScalarConv conv)
+    (hnx : needO D nx + 2 ≤ k) (hn : unwrap = true → need D n + 1 ≤ k) (hv : depth v ≤ D) (hs : OK D s) :
+    OK D (execConvMethod c item any s n nx v f unwrap conv).st := by
+  unfold execConvMethod
+  split
+  · split
+    · rename_i hu
+      exact unwrapTargetArray_ok hA f (hn hu) (depthL_of_arr hv) hs
+    · ok_leaf
+  · split
+    · rename_i out hout
+      exact executeNextItem_ok c hI f hnx (fun _ => by rw [hconv _ _ hout]; omega) hs
+    · ok_leaf
+    · ok_leaf
+    · ok_leaf
+
+theorem executeDateTimeMethod_ok (hI : HI D item k) {s : St} (op : UnOp) (arg : Option Node)
+    {nx : Option Node} (v : Item) (f : Found) (hnx : needO D nx + 2 ≤ k) (hs : OK D s) :
+    OK D (executeDateTimeMethod c item s op arg nx v f).st := by
+  unfold executeDateTimeMethod
+  split
+  · dsimp only
+    split
+    · ok_leaf
+    · split
+      · ok_leaf
+      · split
+        · ok_leaf
+        · exact executeNextItem_ok c hI f hnx (fun _ => by simp [depth]) hs
+  · ok_leaf
+
+theorem kvStep_inv (hI : HI D item k) {nx : Option Node} (id : Int) (hnx : needO D nx + 2 ≤ k)
+    (a : KVAcc) (kv : List Char × Item) (hkv : depth kv.2 + 1 ≤ D) (h : OK D (retSt a.ret a.st)) :
+    OK D (retSt (kvStep c item nx id a kv).ret (kvStep c item nx id a kv).st) := by
+  unfold kvStep
+  split
+  · exact h
+  · rename_i hcond
+    have hnone : a.ret = none := by cases hr : a.ret <;> simp_all
+    simp only [hnone, retSt_none] at h
+    have hr := executeNextItem_ok c hI (s := kvEnter c a.st (kvObj id kv)) (v := kvObj id kv) a.found hnx
+      (fun _ => by rw [depth_kvObj]; omega) (by simpa [OK, kvEnter] using h)
+    dsimp only
+    ok_leaf
+
+theorem executeKeyValueMethod_ok (hI : HI D item k) (hA : HA D any k) {s : St} {n : Node}
+    {nx : Option Node} {v : Item} (f : Found) {unwrap : Bool} (hnx : needO D nx + 2 ≤ k)
+    (hn : unwrap = true → need D n + 1 ≤ k) (hv : depth v ≤ D) (hs : OK D s) :
+    OK D (executeKeyValueMethod c item any s n nx v f unwrap).st := by
+  unfold executeKeyValueMethod
+  split
+  · split
+    · rename_i hu
+      exact unwrapTargetArray_ok hA f (hn hu) (depthL_of_arr hv) hs
+    · ok_leaf
+  · rename_i kvs
+    split
+    · ok_leaf
+    · split
+      · ok_leaf
+      · dsimp only
+        generalize hid : (_ : Int) + s.baseId * 10000000000 = id
+        have hinv := foldl_inv_mem (fun a : KVAcc => OK D (retSt a.ret a.st)) (kvStep c item nx id) kvs
+          ⟨s, f, .ok, none, false⟩ (by simpa using hs)
+          (fun a kv hmem h => kvStep_inv c hI id hnx a kv
+            (by have := depthM_mem hmem; simp only [depth] at hv; omega) h)
+        try dsimp only at hinv
+        split <;> ok_leaf
+  · ok_leaf
+
+theorem execMethodNode_ok (hI : HI D item k) (hA : HA D any k) {s : St} {n : Node} (m : Method)
+    {nx : Option Node} {v : Item} (f : Found) {unwrap : Bool} (hnx : needO D nx + 2 ≤ k)
+    (hn : unwrap = true → need D n + 1 ≤ k) (hv : depth v ≤ D) (hs : OK D s) :
+    OK D (execMethodNode c item any s n m nx v f unwrap).st := by
+  unfold execMethodNode
+  cases m <;> simp only
+  all_goals first
+    | exact execConvMethod_ok c hI hA f (convNumber_scalar _) hnx hn hv hs
+    | exact execConvMethod_ok c hI hA f (convNumericItem_scalar _) hnx hn hv hs
+    | exact execConvMethod_ok c hI hA f convDouble_scalar hnx hn hv hs
+    | exact execConvMethod_ok c hI hA f convInteger_scalar hnx hn hv hs
+    | exact execConvMethod_ok c hI hA f convBigInt_scalar hnx hn hv hs
+    | exact execConvMethod_ok c hI hA f convString_scalar hnx hn hv hs
+    | exact execConvMethod_ok c hI hA f convBoolean_scalar hnx hn hv hs
+    | exact executeNextItem_ok c hI f hnx (fun _ => by simp [depth]) hs
+    | exact execMethodSize_ok c hI v f hnx hs
+    | exact executeKeyValueMethod_ok c hI hA f hnx hn hv hs
+
+/-! ### `.**` and the generic element loop -/
+
+theorem depthL_collection (v : Item) : depthL ((collection v).getD []) ≤ depth v := by
+  cases v <;> simp [collection, depth, depthL, depthL_members]
+
+theorem anyVisit_inv (hI : HI D item k) {node : Option Node} (level first last : Nat) (ignore : Bool)
+    {unwrapNext : Bool} (hreq : needO D node + bonus unwrapNext ≤ k) (a : AAcc) {v : Item} (hv : depth v ≤ D)
+    (hnone : a.ret = none) (h : OK D a.st) :
+    OK D (retSt (anyVisit item node level first last ignore unwrapNext a v).ret
+      (anyVisit item node level first last ignore unwrapNext a v).st) := by
+  unfold anyVisit
+  split
+  · split
+    · rename_i n
+      have hr := hI (if ignore then { a.st with ignoreSE := true } else a.st) n v a.found unwrapNext
+        (by simpa [needO] using hreq) hv (by split <;> simpa [OK] using h)
+      dsimp only
+      ok_leaf
+    · ok_leaf
+  · ok_leaf
+
+theorem anyDescend_inv (hA : HA D any k) {node : Option Node} {level : Nat} (first : Nat) {last : Nat}
+    (ignore : Bool) {unwrapNext : Bool} {e : Nat} (hreq : needO D node + bonus unwrapNext + 1 + e ≤ k + 1)
+    (a : AAcc) {v : Item} (hv : depth v ≤ D) (hdl : level < last → dl ((collection v).getD []) + 1 ≤ e)
+    (hnone : a.ret = none) (h : OK D a.st) :
+    OK D (retSt (anyDescend any node level first last ignore unwrapNext a v).ret
+      (anyDescend any node level first last ignore unwrapNext a v).st) := by
+  unfold anyDescend
+  split
+  · rename_i hlt
+    have hr := hA a.st node ((collection v).getD []) a.found (level + 1) first last ignore unwrapNext (e - 1)
+      (by have := hdl hlt; omega) (fun _ => by have := hdl hlt; omega)
+      (Nat.le_trans (depthL_collection v) hv) h
+    dsimp only
+    ok_leaf
+  · ok_leaf
+
+theorem anyStep_inv (hI : HI D item k) (hA : HA D any k) {node : Option Node} {level : Nat} (first : Nat)
+    {last : Nat} (ignore : Bool) {unwrapNext : Bool} {e : Nat}
+    (hreq : needO D node + bonus unwrapNext + 1 + e ≤ k + 1) (a : AAcc) {v : Item} (hv : depth v ≤ D)
+    (hdl : level < last → dl ((collection v).getD []) + 1 ≤ e) (h : OK D (retSt a.ret a.st)) :
+    OK D (retSt (anyStep item any node level first last ignore unwrapNext a v).ret
+      (anyStep item any node level first last ignore unwrapNext a v).st) := by
+  unfold anyStep
+  split
+  · exact h
+  · rename_i hnone
+    simp only [hnone, retSt_none] at h
+    have h1 := anyVisit_inv hI (node := node) level first last ignore (unwrapNext := unwrapNext) (by omega) a hv hnone h
+    dsimp only
+    split
+    · exact h1
+    · rename_i hnone1
+      simp only [hnone1, retSt_none] at h1
+      exact anyDescend_inv hA first ignore hreq _ hv hdl hnone1 h1
+
+theorem executeAnyItem_ok (hI : HI D item k) (hA : HA D any k) {s : St} {node : Option Node}
+    {vs : List Item} (f : Found) {level : Nat} (first : Nat) {last : Nat} (ignore : Bool) {unwrapNext : Bool}
+    {e : Nat} (hreq : needO D node + bonus unwrapNext + 1 + e ≤ k + 1) (hdl : level < last → dl vs ≤ e)
+    (hvs : depthL vs ≤ D) (hs : OK D s) :
+    OK D (executeAnyItem item any s node vs f level first last ignore unwrapNext).st := by
+  unfold executeAnyItem
+  split
+  · ok_leaf
+  · dsimp only
+    have hinv := foldl_inv_mem (fun a : AAcc => OK D (retSt a.ret a.st))
+      (anyStep item any node level first last ignore unwrapNext) vs ⟨s, f, .notFound, none, none⟩
+      (by simpa using hs)
+      (fun a v hmem h => anyStep_inv hI hA first ignore hreq a (Nat.le_trans (depthL_mem hmem) hvs)
+        (fun hlt => by have := dl_collection hmem; have := hdl hlt; omega) h)
+    try dsimp only at hinv
+    split <;> ok_leaf
+
+theorem anyInto_ok (hA : HA D any k) {s : St} (first last : Nat) {nx : Option Node} {v : Item} (f : Found)
+    (hnx : needO D nx + 3 + D ≤ k) (hv : depth v ≤ D) (hs : OK D s) :
+    OK D (anyInto c any s first last nx v f).st := by
+  unfold anyInto
+  split
+  · rename_i kvs
+    refine hA _ _ _ _ _ _ _ _ _ (dl (members kvs)) ?_ (fun _ => Nat.le_refl _) (depthL_of_obj hv) hs
+    have := dl_le (members kvs); rw [depthL_members] at this
+    have := bonus_le c.lax
+    simp only [depth] at hv; omega
+  · rename_i xs
+    refine hA _ _ _ _ _ _ _ _ _ (dl xs) ?_ (fun _ => Nat.le_refl _) (depthL_of_arr hv) hs
+    have := dl_le xs
+    have := bonus_le c.lax
+    simp only [depth] at hv; omega
+  · ok_leaf
+
+theorem execAnyNode_ok (hI : HI D item k) (hA : HA D any k) {s : St} (first last : Nat) {nx : Option Node}
+    {v : Item} (f : Found) (hnx : needO D nx + 3 + D ≤ k) (hv : depth v ≤ D) (hs : OK D s) :
+    OK D (execAnyNode c item any s first last nx v f).st := by
+  unfold execAnyNode
+  split
+  · have hr := executeNextItem_ok c hI (s := { s with ignoreSE := true }) (v := v) f (nx := nx) (by omega)
+      (fun _ => hv) (by simpa [OK] using hs)
+    generalize executeNextItem c item { s with ignoreSE := true } nx v f = r at hr
+    dsimp only
+    split
+    · ok_leaf
+    · have := anyInto_ok c hA first last r.found hnx hv hr
+      ok_leaf
+  · exact anyInto_ok c hA first last f hnx hv hs
+
+/-! ### subscripts -/
+
+theorem getArrayIndex_ok (hI : HI D item k) {s : St} {n : Node} {v : Item} (hn : need D n + 2 ≤ k)
+    (hv : depth v ≤ D) (hs : OK D s) : OK D (getArrayIndex c item s n v).1 := by
+  unfold getArrayIndex
+  have := executeItem_ok c hI (some []) hn hv hs
+  dsimp only
+  ok_leaf
+
+theorem execSubscript_ok (hI : HI D item k) {s : St} {sub : Node} {v : Item} (size : Int)
+    (hsub : need D sub ≤ k + 2) (hv : depth v ≤ D) (hs : OK D s) : OK D (execSubscript c item s sub v size).1 := by
+  unfold execSubscript
+  split
+  · rename_i l r _
+    simp only [need, needO] at hsub
+    have h1 := getArrayIndex_ok c hI (n := l) (by omega) hv hs
+    split
+    · rename_i s1 e heq
+      rw [heq] at h1; exact h1
+    · rename_i s1 from_ heq
+      rw [heq] at h1
+      cases r with
+      | none => simp only; ok_leaf
+      | some rn =>
+        simp only [needO] at hsub
+        have h2 := getArrayIndex_ok c hI (s := s1) (n := rn) (by omega) hv h1
+        simp only
+        ok_leaf
+  · ok_leaf
+  · ok_leaf
+
+theorem indexElemStep_inv (hI : HI D item k) {nx : Option Node} (hnx : needO D nx + 2 ≤ k) (a : IAcc)
+    {v : Item} (hv : depth v ≤ D) (h : OK D (retSt a.ret a.st)) :
+    OK D (retSt (indexElemStep c item nx a v).ret (indexElemStep c item nx a v).st) := by
+  unfold indexElemStep
+  split
+  · exact h
+  · rename_i hsome
+    have hnone : a.ret = none := by cases hr : a.ret <;> simp_all
+    simp only [hnone, retSt_none] at h
+    split
+    · simpa [hnone] using h
+    · split
+      · ok_leaf
+      · have hr := executeNextItem_ok c hI a.found hnx (fun _ => hv) h
+        dsimp only
+        ok_leaf
+
+theorem indexSubStep_inv (hI : HI D item k) {nx : Option Node} (hnx : needO D nx + 2 ≤ k) {xs : List Item}
+    (hxs : depthL xs ≤ D) {v : Item} (hv : depth v ≤ D) (a : IAcc) {sub : Node} (hsub : need D sub ≤ k + 2)
+    (h : OK D (retSt a.ret a.st)) :
+    OK D (retSt (indexSubStep c item nx xs v a sub).ret (indexSubStep c item nx xs v a sub).st) := by
+  unfold indexSubStep
+  split
+  · exact h
+  · rename_i hsome
+    have hnone : a.ret = none := by cases hr : a.ret <;> simp_all
+    simp only [hnone, retSt_none] at h
+    have h1 := execSubscript_ok c hI (xs.length : Int) hsub hv h
+    split
+    · rename_i s1 e heq
+      rw [heq] at h1
+      ok_leaf
+    · rename_i s1 from_ to_ heq
+      rw [heq] at h1
+      have hinv := foldl_inv_mem (fun a' : IAcc => OK D (retSt a'.ret a'.st)) (indexElemStep c item nx)
+        (sliceRange xs from_ to_) { a with st := s1 } (by simpa [hnone] using h1)
+        (fun a' v' hmem h' => indexElemStep_inv c hI hnx a'
+          (Nat.le_trans (depthL_mem (mem_sliceRange hmem)) hxs) h')
+      exact hinv
+
+theorem execArrayIndex_ok (hI : HI D item k) {s : St} {subs : List Node} {nx : Option Node} {v : Item}
+    (f : Found) (hsubs : needL D subs ≤ k + 2) (hnx : needO D nx + 2 ≤ k) (hv : depth v ≤ D) (hs : OK D s) :
+    OK D (execArrayIndex c item s subs nx v f).st := by
+  unfold execArrayIndex
+  split
+  · ok_leaf
+  · rename_i xs hxs
+    dsimp only
+    have hinv := foldl_inv_mem (fun a : IAcc => OK D (retSt a.ret a.st)) (indexSubStep c item nx xs v) subs
+      ⟨{ s with innermost := xs.length }, f, .notFound, none, none⟩ (by simpa [OK] using hs)
+      (fun a sub hmem h => indexSubStep_inv c hI hnx (Nat.le_trans (depthL_arrayOf hxs) hv) hv a
+        (Nat.le_trans (needL_mem D hmem) hsubs) h)
+    try dsimp only at hinv
+    split <;> ok_leaf
+
+/-! ### node dispatch -/
+
+theorem execBinaryNode_ok (hI : HI D item k) (hB : HB D bool k) (hA : HA D any k) {s : St} {n : Node}
+    (op : BinOp) {l r nx : Option Node} {v : Item} (f : Found) {unwrap : Bool} (hn : need D n ≤ k + 1)
+    (hu : unwrap = true → need D n + 1 ≤ k) (hl : needO D l + 2 ≤ k) (hr : needO D r + 2 ≤ k)
+    (hnx : needO D nx + 2 ≤ k) (hv : depth v ≤ D) (hs : OK D s) :
+    OK D (execBinaryNode c item bool any s n op l r nx v f unwrap).st := by
+  unfold execBinaryNode
+  split
+  · exact appendBoolResult_ok c hI f hnx (hB _ _ _ _ hn hv hs)
+  · split
+    · exact execBinaryMathExpr_ok c hI op f hl hr hnx hv hs
+    · split
+      · exact execConvMethod_ok c hI hA f (convNumber_scalar _) hnx hu hv hs
+      · ok_leaf
+
+theorem execUnaryNode_ok (hI : HI D item k) (hB : HB D bool k) (hA : HA D any k) {s : St} {n : Node}
+    (op : UnOp) {x nx : Option Node} {v : Item} (f : Found) {unwrap : Bool} (hn : need D n ≤ k + 1)
+    (hu : unwrap = true → need D n + 1 ≤ k) (hx : needO D x + 2 ≤ k) (hnx : needO D nx + 2 ≤ k)
+    (hv : depth v ≤ D) (hs : OK D s) : OK D (execUnaryNode c item bool any s n op x nx v f unwrap).st := by
+  unfold execUnaryNode
+  split
+  · exact appendBoolResult_ok c hI f hnx (hB _ _ _ _ hn hv hs)
+  · exact appendBoolResult_ok c hI f hnx (hB _ _ _ _ hn hv hs)
+  · exact appendBoolResult_ok c hI f hnx (hB _ _ _ _ hn hv hs)
+  · split
+    · exact unwrapTargetArray_ok hA f (hu rfl) (depthL_of_arr hv) hs
+    · split
+      · ok_leaf
+      · rename_i cond
+        have hp := executeNestedBoolItem_ok (bool := bool) (n := cond) hB (by simp only [needO] at hx; omega) hv hs
+        dsimp only
+        split
+        · ok_leaf
+        · split
+          · ok_leaf
+          · exact executeNextItem_ok c hI f hnx (fun _ => hv) hp
+  · exact execUnaryMathExpr_ok c hI _ f hx hnx hv hs
+  · exact execUnaryMathExpr_ok c hI _ f hx hnx hv hs
+  · split
+    · exact hA _ _ _ _ _ _ _ _ _ 0 (by have := hu rfl; simpa [needO] using this) (by omega) (depthL_of_arr hv) hs
+    · exact executeDateTimeMethod_ok c hI op x v f hnx hs
+
+theorem dispatch_ok (hc : CtxOK D c) (hI : HI D item k) (hB : HB D bool k) (hA : HA D any k) {s : St}
+    {n : Node} {v : Item} (f : Found) {unwrap : Bool} (hn : need D n + bonus unwrap ≤ k + 1)
+    (hv : depth v ≤ D) (hs : OK D s) : OK D (dispatch c item bool any s n v f unwrap).st := by
+  have hn1 : need D n ≤ k + 1 := by omega
+  have hu : unwrap = true → need D n + 1 ≤ k := by intro h; subst h; simp at hn; omega
+  clear hn
+  unfold dispatch
+  split
+  · simp only [need] at hn1
+    exact execConstNode_ok c hc hI hA _ f (by omega) hu hv hs
+  · simp only [need] at hn1
+    exact execLiteral_ok c hI f (by omega) (by simp [depth]) hs
+  · simp only [need] at hn1
+    exact execLiteral_ok c hI f (by omega) (by simp [depth]) hs
+  · simp only [need] at hn1
+    exact execLiteral_ok c hI f (by omega) (by simp [depth]) hs
+  · simp only [need] at hn1
+    exact execVariable_ok c hc hI _ f (by omega) hs
+  · simp only [need] at hn1
+    exact execKeyNode_ok c hI hA _ f (by omega) hu hv hs
+  · have hn1' := hn1
+    simp only [need] at hn1'
+    exact execBinaryNode_ok c hI hB hA _ f hn1 hu (by omega) (by omega) (by omega) hv hs
+  · have hn1' := hn1
+    simp only [need] at hn1'
+    exact execUnaryNode_ok c hI hB hA _ f hn1 hu (by omega) (by omega) hv hs
+  · have hn1' := hn1
+    simp only [need] at hn1'
+    exact appendBoolResult_ok c hI f (by omega) (hB _ _ _ _ hn1 hv hs)
+  · simp only [need] at hn1
+    exact execMethodNode_ok c hI hA _ f (by omega) hu hv hs
+  · simp only [need] at hn1
+    exact execAnyNode_ok c hI hA _ _ f (by omega) hv hs
+  · simp only [need] at hn1
+    exact execArrayIndex_ok c hI f (by omega) (by omega) hv hs
+
+end
+
+/-! ## induction over the fuel -/
+
+theorem adequate_all {D : Nat} (c : Ctx) (hc : CtxOK D c) : ∀ k : Nat,
+    HI D (xItem c k) k ∧ HB D (xBool c k) k ∧ HA D (xAny c k) k := by
+  intro k
+  induction k with
+  | zero =>
+    refine ⟨fun s n v f u hn => ?_, fun s n v b hn => ?_, fun s node vs f l a b i u e hn => ?_⟩
+    · have := need_pos D n; omega
+    · have := need_pos D n; omega
+    · omega
+  | succ k ih =>
+    obtain ⟨hI, hB, hA⟩ := ih
+    refine ⟨fun s n v f u hn hv hs => ?_, fun s n v b hn hv hs => ?_,
+      fun s node vs f l a b i u e hn hdl hvs hs => ?_⟩
+    · simp only [xItem]
+      split
+      · ok_leaf
+      · rename_i s' hpoll
+        have hs' : OK D s' := by
+          unfold poll at hpoll
+          split at hpoll
+          · simp at hpoll; subst hpoll; exact hs
+          · simp at hpoll
+          · simp at hpoll; subst hpoll; simpa [OK] using hs
+        exact dispatch_ok c hc hI hB hA f hn hv hs'
+    · simp only [xBool]; exact executeBoolItem_ok c hI hB b hn hv hs
+    · simp only [xAny]; exact executeAnyItem_ok hI hA f a i hn hdl hvs hs
+
+/-- **fuel adequacy of the dispatcher**: with `need D node + 2` units of fuel, a run over items of depth at
+    most `D` does not run out -/
+theorem xItem_adequate {D : Nat} (c : Ctx) (hc : CtxOK D c) (fuel : Nat) (s : St) (node : Node) (v : Item)
+    (f : Found) (u : Bool) (hfuel : need D node + 2 ≤ fuel) (hv : depth v ≤ D) (hcur : depth s.current ≤ D)
+    (hs : s.oof = false) : (xItem c fuel s node v f u).st.oof = false :=
+  ((adequate_all c hc fuel).1 s node v f u (by have := bonus_le u; omega) hv ⟨hs, hcur⟩).1
+
 end Fuel
 end Exec
 end Sqljson
@@ -842,6 +1851,38 @@ theorem guarded_outOfFuel_iff {r : Res} {k : Outcome} (hk : k ≠ .outOfFuel) :
   cases ho : r.st.oof with
   | false => simp; split <;> simp [hk]
   | true => simp
+
+
+/-! ### adequacy at the entry points -/
+
+/-- depth bound of everything a run can see: the document and the variable values -/
+def docDepth (doc : Item) (o : Opts) : Nat := max (depth doc) (depthM (o.vars.getD []))
+
+theorem mkCtx_ok (a : AST) (doc : Item) (o : Opts) : CtxOK (docDepth doc o) (mkCtx a doc o) := by
+  refine ⟨?_, fun name val h => ?_⟩
+  · simp only [mkCtx, docDepth]; omega
+  · simp only [mkCtx] at h
+    cases hv : o.vars with
+    | none => simp [hv] at h
+    | some kvs =>
+      simp only [hv, Option.bind_some] at h
+      have := depth_lookup h
+      simp only [docDepth, hv, Option.getD_some]; omega
+
+theorem initSt_ok (a : AST) (doc : Item) (o : Opts) : OK (docDepth doc o) (initSt a doc o) := by
+  refine ⟨rfl, ?_⟩
+  simp only [initSt, docDepth]; omega
+
+theorem query_adequate {D : Nat} (c : Ctx) (hc : CtxOK D c) (fuel : Nat) {s : St} {nd : Node} {v : Item}
+    (f : Found) (hfuel : need D nd + 2 ≤ fuel) (hv : depth v ≤ D) (hs : OK D s) :
+    OK D (query c fuel s nd v f).st := by
+  unfold query
+  have hI := (adequate_all c hc fuel).1
+  split
+  · have := executeItem_ok c hI (some []) hfuel hv hs
+    dsimp only
+    ok_leaf
+  · exact executeItem_ok c hI f hfuel hv hs
 
 end Fuel
 end Api
